@@ -118,7 +118,10 @@ CHECKS = {
                 "beyond the window with the panic caught and the history continued, sources that claim more bytes than their slice (the "
                 "load-bearing assert), every sink — and after any history the exposed slice has the buffered length and is the "
                 "delivered-unconsumed data. The decimal text of every integer fits the MAX_LEN bytes reserved before the raw-pointer "
-                "write. Model tied to the code by the rd/wr/tx streams with caught panics (debug assertions on) and release builds.",
+                "write. Model tied to the code by the rd/wr/tx streams with caught panics (debug assertions on) and release builds. "
+                "Supporting dynamic check (thorough tier, not a proof): a sample of the same reader / writer / scanner histories runs on "
+                "the real code under Miri, which reports real undefined behaviour (e.g. the out-of-bounds raw load of a seeded guard "
+                "change); none is reported on the unchanged tree.",
         "design_ref": "DESIGN.md 2/C14",
         "note": "Trusted: as C02/C11. Partial: the theorem is about index arithmetic relative to the modelled allocation; real memory "
                 "effects, aliasing rules and Vec internals are outside the model. Defect D3 was found by this check and fixed.",
